@@ -111,7 +111,10 @@ func NewTicker(d time.Duration) *Ticker {
 	verifrt.RegisterTimerChan(c, func() bool {
 		if !t.stop && len(c) == 0 && verifrt.NowNanos() >= t.next {
 			c <- verifrt.Now()
-			t.next += int64(t.period)
+			// like a real ticker, ticks that were missed while the clock jumped are dropped
+			if t.next += int64(t.period); t.next <= verifrt.NowNanos() {
+				t.next = verifrt.NowNanos() + int64(t.period)
+			}
 		}
 		return len(c) > 0
 	})
